@@ -3,7 +3,7 @@
 # files it under /verif/seeded/<prop>_<k>/ with my own confirmation record.
 WT=$1; K=$2; P=$3; FEAT=${4:+--features $4}
 OUT=$WT/_out/$K
-DEST=/verif/seeded/${P}_$K
+DEST=/verif/seeded/${P}_${5:-$K}
 export CARGO_TARGET_DIR=$WT/target CARGO_NET_OFFLINE=true
 cd $WT || exit 1
 git checkout -q -- palette palette_derive
